@@ -185,6 +185,31 @@ def weight_cases(rng, n, pcts=(100, 30, 50, 80), keep=40):
     return out
 
 
+def seq_cases(rng, nseq, length, base_id):
+    """sequences of bidirectional registrations on ONE processor (built once by the real constructor): the configured
+    subnets the oracle uses are the generated ones, never read back from the processor"""
+    out = []
+    for k in range(nseq):
+        transport = rng.choice([1, 4])
+        tname = "Min_Transport" if transport == 1 else "Prefix_Transport"
+        cidrs = rng.sample(["10.1.0.0/24", "10.2.3.0/28", "172.16.5.6/31", "198.51.100.128/25", "100.64.0.0/10", "255.255.255.0/24"], rng.choice([1, 2, 3]))
+        subs = [{"cidr": c, "weight": rng.choice([1, 2, 0.5]), "port": rng.choice([443, 80, 1111]), "transport": tname, "prefix_id": rng.choice([1, 2, 5])}
+                for c in cidrs]
+        cfg = {"auth": rng.random() < 0.5, "overrides": rng.choice(["none", "rand"]), "transports": [1, 4], "enforce": True, "subnets": subs,
+               "exclusions": rng.sample(EXCL, rng.choice([0, 1])), "pmin": rng.choice([100, 100, 80]), "pprefix": rng.choice([100, 100, 80]), "send_ok": True}
+        for j in range(length):
+            c = make_valid(rng, gen_case(rng, steer=False))
+            c["kind"], c["fe"], c["seq_id"], c["group"] = "bd", "", base_id + k, None
+            c["cfg"] = cfg
+            q = c["req"]
+            q.update({"transport": transport, "v4": True, "disable_ov": None, "gen": 1, "addr": None,
+                      "params": {"kind": "prefix", "prefix_id": 1} if transport == 4 else {"kind": "generic"}})
+            c["sel"]["v4"] = rng.choice(["9.8.7.6", "1.0.0.1", "203.0.113.200"])
+            c["client_addr"], c["station"] = "c6336401", {"v4": True, "v6": True, "transports": [1, 4]}
+            out.append(c)
+    return out
+
+
 def expected_subnet(subs, f_num):
     """index of the subnet the weighted choice must pick for the draw f = f_num / 2^53 (exact rationals);
     None when f is within 1e-9 of an interval boundary (float rounding of the table) or no subnet matches"""
@@ -521,6 +546,7 @@ def run(ctx):
         cases.append(c)
     cases += weight_cases(rng, 240 if quick else 1200)
     cases += port_cases(rng)
+    cases += seq_cases(rng, 8 if quick else 60, 25, 1000)
     nfe = 150 if quick else 1500
     cases += [fe_case(rng, "api") for _ in range(nfe)] + [fe_case(rng, "dns") for _ in range(nfe)]
     res = [None] * len(cases)
@@ -537,8 +563,25 @@ def run(ctx):
             res[i] = r
     terms, tidx = [], []
     hits = {}
+    dump0 = {}
     for ci, (c, r) in enumerate(zip(cases, res)):
         kind = oracle(ctx, c, r)
+        # purity of the configuration: a registration never changes the processor's override configuration
+        if not r["ctor_err"] and r.get("cfg_dump"):
+            sid = c.get("seq_id") or ("single", ci)
+            if r.get("cfg_dump0"):
+                dump0[sid] = r["cfg_dump0"]
+                want = sorted(str(ipaddress.ip_network(x["cidr"], strict=False)) for x in c["cfg"]["subnets"]
+                              if x["transport"] in ("Min_Transport", "Prefix_Transport"))
+                got = sorted(tok.split()[1] for tok in r["cfg_dump0"].split("; ") if tok.startswith(("min ", "prefix ")))
+                if want != got:
+                    ctx.fail("config-not-as-configured", "the constructed processor holds override subnets %s, configured were %s" % (got, want), c)
+            if sid in dump0 and r["cfg_dump"] != dump0[sid]:
+                ctx.fail("config-mutated", "a registration changed the processor's override configuration: before %r, after %r (%s)"
+                         % (dump0[sid][:400], r["cfg_dump"][:400], short(c)), c)
+                dump0[sid] = r["cfg_dump"]
+            if c.get("seq_id"):
+                kind = "seq/" + kind
         ctx.count((c["kind"], repr(c)), nontrivial=True, kind=kind)
         if not c.get("noterm"):
             terms.append(gcase(c, r))
@@ -579,7 +622,7 @@ def run(ctx):
     ctx.sample({"case": cases[1], "observed": res[1]})
     ctx.require_kinds(["bd/ok/plain/t1", "bd/ok/plain/t4", "bd/ok/subst/t1", "bd/ok/subst/t4", "bd/err-other", "bd/err-noc2s", "bd/err-secret",
                        "bd/err-procfailed", "uni/sent", "uni/rejected", "st/err", "st/regs1", "st/regs2",
-                       "ctor-rejected", "api/bd/ok", "api/bd/rejected", "api/uni/sent", "api/uni/rejected", "dns/bd/ok", "dns/bd/rejected", "dns/uni/sent", "dns/uni/rejected"])
+                       "ctor-rejected", "seq/bd/ok/subst/t1", "seq/bd/ok/subst/t4", "api/bd/ok", "api/bd/rejected", "api/uni/sent", "api/uni/rejected", "dns/bd/ok", "dns/bd/rejected", "dns/uni/sent", "dns/uni/rejected"])
     mm = ctx.coq_mismatches("reg", HEADER, terms, "chk", shard=150, need_vo=["C12/Run.vo", "C12/Examples.vo"])
     if mm:
         ctx.cov["mismatches"] += len(mm)
